@@ -412,6 +412,9 @@ func cmdCheck(args []string) {
 		fmt.Println(l)
 	}
 	fmt.Printf("property %s tier %s: functions=%d obligations=%d discharged=%d undecided(not claimed)=%d known-findings=%d violations=%d wall=%.1fs\n", *prop, *tier, len(fnList), nObl, nDis, len(undecided), len(knownHits), len(violationLines), time.Since(t0).Seconds())
+	if !*keep {
+		os.RemoveAll(outDir) // (os.Exit below skips the deferred removal)
+	}
 	if broken != "" && !*writeLedger {
 		fmt.Fprintln(os.Stderr, "BROKEN:", broken)
 		if len(violationLines) > 0 {
